@@ -496,8 +496,19 @@ pub fn run(ctx: &Ctx) {
             ranges.push((a, b));
         }
     }
-    let masks: Vec<u32> = (0..1024u32).map(|m| m << 1).collect();
-    let n_second = ctx.scale(48usize, 1024usize);
+    let tiny = ctx.tiny();
+    let masks: Vec<u32> = if tiny {
+        // Miri: 24 sets spread over the universe, few arguments
+        (0..1024u32).step_by(43).map(|m| m << 1).collect()
+    } else {
+        (0..1024u32).map(|m| m << 1).collect()
+    };
+    if tiny {
+        ranges.retain(|(a, b)| (a + 2 * b) % 7 == 0);
+        limits.retain(|n| n % 4 == 0 || *n == u64::MAX);
+    }
+    let n_masks = masks.len();
+    let n_second = ctx.scale3(3usize, 48usize, 1024usize);
     let shards = ctx.cores();
     ctx.par(shards, |shard| {
         let mon = Mon { ctx };
@@ -510,7 +521,7 @@ pub fn run(ctx: &Ctx) {
             ctx.nontrivial(&("unary", mask));
             let mut rng = ctx.rng(1, i as u64);
             for j in 0..n_second {
-                let other = if n_second == 1024 { masks[j] } else { masks[rng.gen_range(0..1024)] };
+                let other = if n_second == 1024 { masks[j] } else { masks[rng.gen_range(0..n_masks)] };
                 mon.binary(&m, &ISet::from_mask(other));
                 ctx.nontrivial(&("binary", mask, other));
             }
@@ -521,7 +532,7 @@ pub fn run(ctx: &Ctx) {
     ctx.extra("small_universe_binary_second_operands_per_set", json!(n_second));
 
     // single-range helpers: exhaustive small + boundary pool
-    for a in 1..=12u64 {
+    for a in 1..=ctx.scale3(3, 12, 12u64) {
         for b in 0..=12u64 {
             for n in 0..=13u64 {
                 mon.range_ops(a, b, n);
@@ -531,7 +542,7 @@ pub fn run(ctx: &Ctx) {
     }
 
     // (b) random histories over the full u64 range
-    let histories = ctx.scale(4_000u64, 200_000u64);
+    let histories = ctx.scale3(6u64, 4_000u64, 200_000u64);
     let ops_per = 12;
     ctx.par(shards, |shard| {
         let mon = Mon { ctx };
@@ -568,6 +579,8 @@ pub fn run(ctx: &Ctx) {
             ctx.count("random_histories");
         }
     });
-    ctx.floor("small_universe_sets", 1024);
-    ctx.floor("sets_containing_u64max", 100);
+    if !tiny {
+        ctx.floor("small_universe_sets", 1024);
+        ctx.floor("sets_containing_u64max", 100);
+    }
 }
